@@ -264,7 +264,11 @@ func VerifC08_is_predicates() {
 	verifAssert(!(isEmpty && isNotEmpty), "C08/is/empty-and-notempty-exclusive")
 	if k != kABSENT {
 		verifAssert(isEmpty != isNotEmpty, "C08/is/empty-xor-notempty-when-present")
+	} else {
+		// documented: "true if the field is PRESENT in input with non-empty value"
+		verifAssert(!isNotEmpty && !isEmpty, "C08/is/absent-is-neither-empty-nor-not-empty")
 	}
+	verifAssert(isNotEmpty == (isPresent && !isEmpty), "C08/is/not-empty-is-present-and-not-empty")
 	isNull, isNotNull := t(BIF_is_null(a)), t(BIF_is_notnull(a))
 	verifAssert(isNull != isNotNull, "C08/is/null-xor-notnull")
 	verifAssert(isNull == (k == kVOID || k == kABSENT || k == kNULL), "C08/is/null-is-empty-or-absent-or-jsonnull")
